@@ -39,15 +39,18 @@ pub fn mix_for(prop: u32) -> Mix {
 /// (quick, thorough) number of runs
 pub fn runs_for(prop: u32) -> (u64, u64) {
     match prop {
-        1 | 2 => (24_000, 600_000),
-        3 => (24_000, 600_000),
-        4 => (240_000, 6_000_000),
-        5 | 6 => (100_000, 2_500_000),
-        7 => (50_000, 1_200_000),
-        9 => (120_000, 3_000_000),
-        13 => (20_000, 400_000),
-        15 => (20_000, 400_000),
-        19 => (12_000, 300_000),
-        _ => (20_000, 500_000),
+        1 => (36_000, 700_000),
+        2 => (40_000, 800_000),
+        3 => (30_000, 600_000),
+        4 => (300_000, 6_000_000),
+        5 | 6 => (120_000, 2_500_000),
+        7 => (120_000, 1_500_000),
+        8 => (40_000, 600_000),
+        9 => (450_000, 4_000_000),
+        10 | 12 => (40_000, 700_000),
+        13 | 14 => (36_000, 600_000),
+        15 => (30_000, 500_000),
+        19 => (24_000, 400_000),
+        _ => (30_000, 600_000),
     }
 }
